@@ -601,6 +601,8 @@ _MODELS = {
     ".lower": lambda s: _txt(s).lower(), ".upper": lambda s: _txt(s).upper(), ".casefold": lambda s: _txt(s).casefold(),
     ".strip": lambda s, *a: _txt(s).strip(*a), ".lstrip": lambda s, *a: _txt(s).lstrip(*a), ".rstrip": lambda s, *a: _txt(s).rstrip(*a),
     ".replace": lambda s, a, b, *c: _txt(s).replace(a, b, *c), ".find": lambda s, *a: _txt(s).find(*a),
+    # look-up in a constant dictionary
+    ".get": lambda d, k, default=None: _dict(d).get(k, default),
     # struct on concrete buffers
     "ext:struct.unpack": lambda f, d: _struct.unpack(_txt(f), _buf(d)), "ext:struct.unpack_from": lambda f, d, o=0: _struct.unpack_from(_txt(f), _buf(d), _int(o)),
     "ext:struct.calcsize": lambda f: _struct.calcsize(_txt(f)), "ext:struct.Struct": lambda f: _StructObj(_txt(f)),
@@ -618,6 +620,12 @@ class _StructObj:
 
     def __repr__(self):
         return f"Struct({self.fmt!r})"
+
+
+def _dict(x):
+    if not isinstance(x, dict):
+        raise TypeError("not a dict")
+    return x
 
 
 def _sobj(x):
